@@ -120,6 +120,7 @@ type loopInfo struct {
 	hasFrame  bool
 	iter      string
 	frameObjs []string
+	frameSkip map[string]bool
 }
 
 type frame struct {
@@ -180,6 +181,7 @@ type FnVC struct {
 	pair            *pairCtx
 	noOblige        bool
 	lastInlined     bool
+	fnHints         map[string]*ssa.Function
 	ftParams        []string
 }
 
